@@ -50,17 +50,19 @@ MC_ROTATION = [('Claim', 'Release', None), ('Reserve', 'UnReserve', None), ('Try
                ('Lock', 'Unlock', None), ('Get', 'Forget', None)]
 
 
-def gen_model(rng, want_mc=None, nports=None, clash=False, mc_names=None):
+def gen_model(rng, want_mc=None, nports=None, clash=False, mc_names=None, shadow=False):
     """A random well-formed model with a valid configuration; returns (decls, cfg, index of the granting value).
     clash: at least two interfaces in different namespaces spell a parameter type identically ('U') while it denotes
-    different externs, and all ports are MTS so that both are looked up in one build."""
-    cns = rng.choice([[], ['A'], ['A', 'B'], ['My']])
+    different externs, and all ports are MTS so that both are looked up in one build.
+    shadow: the component lives in A.B, its first interface A.I0 is referred to by its simple name, and a decoy interface
+    A.B.A.I0 with the same events exists: a C++ name 'A::I0' that is not rooted at '::' denotes the decoy there."""
+    cns = ['A', 'B'] if shadow else rng.choice([[], ['A'], ['A', 'B'], ['My']])
     ns_pool = [cns, cns[:-1] if cns else [], ['Lib'], ['Lib2', 'Sub']]
     if len(cns) == 2:
         ns_pool.append([cns[-1]])       # a global namespace named like the component's innermost one (shadowing in C++)
     decls = [model.new_decl('extern', ['T'], cpp=T1), model.new_decl('extern', ['R'], cpp='const ::vt::T1&')]
     fields = rng.choice([['Ok', 'No'], ['No', 'Ok', 'Busy']])
-    nested_enum = rng.random() < 0.4
+    nested_enum = rng.random() < 0.4 and not shadow
     mc_on = rng.random() < 0.5 if want_mc is None else want_mc
     nitf = rng.randint(2, 3) if clash else rng.randint(1, 3)
     itfs = []
@@ -75,11 +77,19 @@ def gen_model(rng, want_mc=None, nports=None, clash=False, mc_names=None):
         itfs.append({'name': f'I{k}', 'events': events, 'ns': rng.choice(ns_pool)})
     if clash:
         itfs[0]['ns'], itfs[1]['ns'] = rng.sample([['Lib'], ['Lib2', 'Sub'], cns if cns else ['A']], 2)
+        if rng.random() < 0.5:
+            # ... and the two interfaces even share their simple name: only the fully qualified name tells them apart.
+            # The second one gets the first one's events plus its own, so that code wired for the wrong one still compiles.
+            itfs[1]['name'] = itfs[0]['name']
+            have = {e['name'] for e in itfs[0]['events']}
+            itfs[1]['events'] = [dict(e) for e in itfs[0]['events']] + [e for e in itfs[1]['events'] if e['name'] not in have]
         for k in (0, 1):
             have = {e['name'] for e in itfs[k]['events']}
             itfs[k]['events'].append({'name': 'SetU' if 'SetU' not in have else 'SetU2', 'dir': 'in', 'reply': ['void'],
                                       'formals': [F('u', 'U'), F('w', 'U', 'out')]})
             itfs[k]['events'].append({'name': 'GotU', 'dir': 'out', 'reply': ['void'], 'formals': [F('u', 'U')]})
+    if shadow:
+        itfs[0]['ns'] = ['A']
     claim = release = ''
     if mc_on:
         claim, release = rng.choice(CLAIM_NAMES), rng.choice(RELEASE_NAMES)
@@ -111,6 +121,8 @@ def gen_model(rng, want_mc=None, nports=None, clash=False, mc_names=None):
             if evt['reply'] == ['Res'] and (itf is not itfs[0]):
                 evt['reply'] = list(enum_fqn)
         decls.append(model.new_decl('interface', itf['ns'] + [itf['name']], events=itf['events']))
+    if shadow:
+        decls.append(model.new_decl('interface', ['A', 'B', 'A', itfs[0]['name']], events=[dict(e) for e in itfs[0]['events']]))
     nports = nports or (rng.randint(2, 4) if clash else rng.randint(1, 4))
     names = rng.sample(PORT_NAMES, nports)
     ports = []
@@ -122,6 +134,10 @@ def gen_model(rng, want_mc=None, nports=None, clash=False, mc_names=None):
         full = itf['ns'] + [itf['name']]
         visible_simple = itf['ns'] == cns[:len(itf['ns'])]           # declared in the component's scope or an enclosing one
         spelled = rng.choice([[itf['name']], full]) if visible_simple else full
+        if shadow and itf is itfs[0]:
+            spelled = [itf['name']]          # 'A.I0' would be ambiguous for Dezyne (A.B.A.I0 and A.I0 are both on the chain)
+        if shadow and i == 0:
+            itf, full, spelled = itfs[0], ['A', itfs[0]['name']], [itfs[0]['name']]
         ports.append({'name': nme, 'type': spelled, 'dir': direction, 'inj': direction == 'requires' and rng.random() < 0.15})
     mc_name = ports[0]['name']
     if mc_on and len(ports) > 1 and rng.random() < 0.6:       # the multi-client port need not be declared first
@@ -401,7 +417,8 @@ class Engine:
         while len(progs) < count and tries < count * 4:
             tries += 1
             decls, cfg, grant = gen_model(rng, want_mc, clash=(tries % 4 == 0),
-                                          mc_names=MC_ROTATION[tries % len(MC_ROTATION)] if tries % 2 else None)
+                                          mc_names=MC_ROTATION[tries % len(MC_ROTATION)] if tries % 2 else None,
+                                          shadow=(tries % 6 == 3))
             prog = cxx.Program(decls, cfg)
             prog.grant = grant
             try:
